@@ -141,7 +141,7 @@ func init() {
 		DesignRef: "DESIGN.md 3.12, 4 C12",
 		LevelText: "T.brace: every function of the template packages that emits code is abstractly interpreted with state = net braces/parens of the constant text it emits; branch conditions over never-reassigned locals are enumerated as atoms, switch arms are nondeterministic; all paths of a function must agree, loop bodies and root emitters must be balanced - this holds for all schemas, not only the corpus. GEN.*: the generator built from the working tree must answer every corpus schema (kind x shape matrix, 1..5-byte tags, interleaved oneofs, nesting/recursion, cross-package imports, well-known types, name collisions, sparse enums, the schemas embedded in the checked-in files) with sources that type-check (thorough: also GOARCH=386 and the full 12x17 map matrix), an unknown feature with an error, proto2 / unrequested files with no output. The emitted code is only analysed, never run; the codec engines of C01-C04/C06/C14 (SIZE, ENC, DEC, DET, UNK, BND) are applied to everything the working-tree generator emitted, so a template change that breaks a wire-format clause for some kind x shape x tag-width cell of the corpus is reported here as well. Not decided: totality for schemas outside the corpus beyond T.*; M/paths= parameter handling is protogen's.",
 		Engines:      E{tmpl.RunBrace, tmpl.RunNames, tmpl.RunImports, tmpl.RunKinds, tmpl.RunFlow, tmpl.RunDetPure, tmpl.RunS2, codec.RunSize, codec.RunEnc, codec.RunDec, refl.RunCoh},
-		RulePrefixes: []string{"COH.md", "COH.gotypes", "COH.depidx", "COH.builder", "COH.msgindex", "COH.msginfo", "COH.initchain", "COH.imports", "COH.ext", "T.brace", "T.names", "T.imports", "T.kinds", "T.flow", "T.pure", "T.anchor", "GEN", "G.model", "G.anchor", "SIZE", "ENC", "DEC", "DET", "UNK.default", "BND"},
+		RulePrefixes: []string{"COH.md", "COH.gotypes", "COH.depidx", "COH.builder", "COH.msgindex", "COH.msginfo", "COH.initchain", "COH.imports", "COH.pkgname", "COH.ext", "T.brace", "T.names", "T.imports", "T.kinds", "T.flow", "T.pure", "T.anchor", "GEN", "G.model", "G.anchor", "SIZE", "ENC", "DEC", "DET", "UNK.default", "BND"},
 		Floors: []core.Floor{
 			{Rule: "T.brace", Min: 60, Why: "emitting template functions"},
 			{Rule: "T.names", Min: 19, Why: "16 methods + 3 structure rules"},
